@@ -196,8 +196,12 @@ KBVariant(kb, w, sdhNow) ==
     [] w = "sdh-absent" -> [h |-> kb.hdr, p |-> Without(kb.pl, {"sd_hash"})]
     [] w = "sdh-other" -> [h |-> kb.hdr, p |-> With(kb.pl, "sd_hash", JStr(<<"sdh", "wrong">>))]
     [] w = "sdh-fix" -> [h |-> kb.hdr, p |-> With(kb.pl, "sd_hash", JStr(sdhNow))]
+    [] w = "sdh-empty" -> [h |-> kb.hdr, p |-> With(kb.pl, "sd_hash", JStr(<<"sdh", "">>))]
+    [] w = "sdh-prefix" -> [h |-> kb.hdr, p |-> With(kb.pl, "sd_hash", JStr(<<"sdh", "prefix of the right one">>))]
+    [] w = "nonce-empty" -> [h |-> kb.hdr, p |-> With(kb.pl, "nonce", JStr(""))]
+    [] w = "nonce-prefix" -> [h |-> kb.hdr, p |-> With(kb.pl, "nonce", JStr("n"))]
     [] w = "same" -> [h |-> kb.hdr, p |-> kb.pl]
-KBWhats == {"typ-absent", "typ-other", "nonce-absent", "nonce-other", "aud-absent", "aud-other", "sdh-absent", "sdh-other", "sdh-fix", "same"}
+KBWhats == {"typ-absent", "typ-other", "nonce-absent", "nonce-other", "nonce-empty", "nonce-prefix", "aud-absent", "aud-other", "sdh-absent", "sdh-other", "sdh-empty", "sdh-prefix", "sdh-fix", "same"}
 \* altered text keeps the old signature: the result was never signed by anybody
 AdvAlterKB == Move("AlterKB") /\ cur.kb # NoKB /\ \E w \in KBWhats \ {"same"} :
                  LET v == KBVariant(cur.kb, w, cur.sdh) IN
